@@ -28,7 +28,10 @@ def replay_record(path, module):
     f = os.path.join(d, "replay.w00.ndjson")
     with open(f, "w") as fh:
         fh.write(json.dumps(rp["record"]) + "\n")
-    checked, classes = vlib.tlc_validate(module, [f])
+    pe = os.path.join(d, "penv.json")
+    with open(pe, "w") as fh:
+        json.dump(rp.get("penv") or dict(vars=[dict(n=list("HOME"), v=list("/h"))]), fh)
+    checked, classes = vlib.tlc_validate(rp.get("validator") if rp.get("validator", "").startswith("Trace_") else module, [f], extra_env=dict(PENV=pe))
     for c in classes:
         print(c["c"], c["n"])
     bad = [c for c in classes if c["c"][0] == "BAD"]
